@@ -188,3 +188,291 @@ Proof.
   use_upd_gen; rw_goal; cbn; rewrite ?wsum_app; cbn; try lia; auto.
   rewrite filter_app, map_app; cbn. destruct (has_out m); cbn; rewrite ?app_nil_r; reflexivity.
 Qed.
+
+(* ------------------------------------------------------------------ phase invariant *)
+Definition srank (p : sphase) : nat :=
+  match p with SRunning => 0 | SGotQuit => 1 | SFlushed => 2 | SBarrierSet => 3 | SBarrierDone => 4
+             | SDoneSent => 5 | SClosed => 6 | SReturned => 7 end.
+
+Definition stop_ok (p : sphase) (t : tphase) : Prop :=
+  match p with
+  | SRunning => t = TNotCalled \/ t = TSending
+  | SGotQuit | SFlushed | SBarrierSet | SBarrierDone => t = TSentQuit \/ t = TWaitDone
+  | SDoneSent | SClosed | SReturned => t = TReturned
+  end.
+
+Definition sub_inv (r : nat) (sb : sub) : Prop :=
+  post sb = []
+  /\ (broker sb = false -> draining sb = true)
+  /\ (bar sb = true -> broker sb = false)
+  /\ (registered sb = false -> draining sb = true /\ broker sb = false /\ pre sb = [] /\ inh sb = None)
+  /\ (r = 0 -> draining sb = false)
+  /\ (2 <= r -> draining sb = true /\ broker sb = false)
+  /\ (r < 3 -> bar sb = false)
+  /\ (3 <= r -> bar sb = false -> pre sb = [] /\ inh sb = None).
+
+Definition barw (sb : sub) : nat := if bar sb then 1 else 0.
+
+Definition Inv (n w q : nat) (s : st) : Prop :=
+  let r := srank (serve s) in
+  stop_ok (serve s) (stop s)
+  /\ Forall (sub_inv r) (subs s)
+  /\ refs s = wsum barw (subs s)
+  /\ (r < 3 -> fired s = false)
+  /\ (3 <= r -> (fired s = true <-> refs s = 0))
+  /\ (4 <= r -> fired s = true)
+  /\ (closed s = true <-> 6 <= r)
+  /\ (closed s = false -> Forall (fun x => is_exited x = false) (workers s))
+  /\ (existsb is_exited (workers s) = true -> workc s = [])
+  /\ (r = 7 -> forallb is_exited (workers s) = true)
+  /\ crashed s = false
+  /\ lost (g s) = []
+  /\ length (subs s) = n /\ length (workers s) = w /\ qlen s = q.
+
+Lemma Forall_upd {A} (P : A -> Prop) l i b : Forall P l -> P b -> Forall P (upd l i b).
+Proof.
+  intros HF Hb. revert i. induction HF as [|a t Ha Ht IH]; intros [|i]; cbn; constructor; auto.
+Qed.
+
+Lemma Forall_nth_error {A} (P : A -> Prop) l i a : Forall P l -> nth_error l i = Some a -> P a.
+Proof.
+  intros HF. revert i. induction HF as [|x t Hx Ht IH]; intros [|i] Hn; cbn in *; try discriminate.
+  - injection Hn as <-. auto.
+  - eauto.
+Qed.
+
+Lemma Forall_repeat {A} (P : A -> Prop) a n : P a -> Forall P (repeat a n).
+Proof. intros H. induction n; cbn; constructor; auto. Qed.
+
+Lemma existsb_Forall_false {A} (p : A -> bool) l : Forall (fun x => p x = false) l -> existsb p l = false.
+Proof. induction 1 as [|a t Ha Ht IH]; cbn; auto. rewrite Ha, IH. auto. Qed.
+
+Lemma existsb_upd {A} (p : A -> bool) l i b :
+  existsb p (upd l i b) = true -> p b = false -> existsb p l = true.
+Proof.
+  revert i. induction l as [|a t IH]; intros [|i] He Hb; cbn in *; try discriminate.
+  - rewrite Hb in He. cbn in He. rewrite He. apply orb_true_r.
+  - apply orb_true_iff in He as [He|He]; [rewrite He; auto|]. rewrite (IH _ He Hb). apply orb_true_r.
+Qed.
+
+Lemma forallb_nth_error {A} (p : A -> bool) l i a : forallb p l = true -> nth_error l i = Some a -> p a = true.
+Proof.
+  revert i. induction l as [|x t IH]; intros [|i] Hf Hn; cbn in *; try discriminate;
+  apply andb_true_iff in Hf as [Hx Ht].
+  - injection Hn as <-. auto.
+  - eauto.
+Qed.
+
+Lemma wsum_zero_nth {A} (f : A -> nat) l i a : wsum f l = 0 -> nth_error l i = Some a -> f a = 0.
+Proof.
+  revert i. induction l as [|x t IH]; intros [|i] Hw Hn; cbn in *; try discriminate.
+  - injection Hn as <-. lia.
+  - apply (IH i); auto. lia.
+Qed.
+
+Lemma wsum_pos_ex {A} (f : A -> nat) l : wsum f l <> 0 -> exists i a, nth_error l i = Some a /\ f a <> 0.
+Proof.
+  induction l as [|x t IH]; cbn; intros Hw; try lia.
+  destruct (f x) eqn:Hx.
+  - destruct IH as (i & a & Hn & Ha); try lia. exists (S i), a. auto.
+  - exists 0, x. cbn. split; auto. lia.
+Qed.
+
+Lemma wsum_ge_nth {A} (f : A -> nat) l i a : nth_error l i = Some a -> f a <= wsum f l.
+Proof.
+  revert i. induction l as [|x t IH]; intros [|i] Hn; cbn in *; try discriminate.
+  - injection Hn as <-. lia.
+  - specialize (IH _ Hn). lia.
+Qed.
+
+Lemma sub_inv_change r r' sb :
+  sub_inv r sb ->
+  (r' = 0 -> draining sb = false) ->
+  (2 <= r' -> draining sb = true /\ broker sb = false) ->
+  (r' < 3 -> bar sb = false) ->
+  (3 <= r' -> bar sb = false -> pre sb = [] /\ inh sb = None) ->
+  sub_inv r' sb.
+Proof. unfold sub_inv. intuition. Qed.
+
+Lemma Inv_init n w q : Inv n w q (init n w q).
+Proof.
+  unfold Inv, init; cbn.
+  split; [left; reflexivity|].
+  split; [apply Forall_repeat; unfold sub_inv, sub0; cbn; intuition; try discriminate; try lia|].
+  split; [rewrite wsum_repeat0; auto|].
+  split; [auto|]. split; [intros; lia|]. split; [intros; lia|].
+  split; [split; intros; [discriminate|lia]|].
+  split; [intros _; apply Forall_repeat; reflexivity|].
+  split; [intros He; rewrite existsb_Forall_false in He; [discriminate|apply Forall_repeat; reflexivity]|].
+  split; [intros; discriminate|]. split; [reflexivity|]. split; [reflexivity|].
+  split; [apply repeat_length|]. split; [apply repeat_length|reflexivity].
+Qed.
+
+Ltac splits := repeat match goal with |- _ /\ _ => split end.
+Ltac getsub I2 :=
+  match goal with H : nth_error (subs ?s) ?i = Some ?sb |- _ =>
+    let Hsb := fresh "Hsb" in pose proof (Forall_nth_error _ _ _ _ I2 H) as Hsb end.
+Ltac subinv :=
+  unfold sub_inv in *; cbn in *;
+  match goal with
+  | H : context[srank ?p] |- _ =>
+    let r := fresh "r" in
+    set (r := srank p) in *; clearbody r;
+    destruct (Nat.eq_dec r 0); destruct (le_lt_dec 2 r); destruct (le_lt_dec 3 r); try lia
+  | _ => idtac
+  end;
+  intuition (try congruence; try lia; try discriminate).
+
+Lemma barw_upd_same l i (a b : sub) : nth_error l i = Some a -> bar b = bar a ->
+  wsum barw (upd l i b) = wsum barw l.
+Proof.
+  intros Hn Hb. pose proof (wsum_upd barw _ _ _ b Hn) as HW.
+  assert (barw b = barw a) as Hba by (unfold barw; rewrite Hb; auto). lia.
+Qed.
+
+Lemma barw_upd_clear l i (a b : sub) : nth_error l i = Some a -> bar a = true -> bar b = false ->
+  wsum barw (upd l i b) = pred (wsum barw l).
+Proof.
+  intros Hn Ha Hb. pose proof (wsum_upd barw _ _ _ b Hn) as HW.
+  assert (barw b = 0) as Hb0 by (unfold barw; rewrite Hb; auto).
+  assert (barw a = 1) as Ha1 by (unfold barw; rewrite Ha; auto). lia.
+Qed.
+
+Definition hbar (sb : sub) : sub := if registered sb then sub_setbar sb else sb.
+
+Lemma bar_lemmas l : Forall (sub_inv 2) l ->
+  wsum barw l = 0
+  /\ Forall (sub_inv 3) (map hbar l)
+  /\ count_registered l = wsum barw (map hbar l)
+  /\ (count_registered l = 0 -> Forall (sub_inv 3) l).
+Proof.
+  unfold count_registered. induction 1 as [|sb t Hsb Ht (IH1 & IH2 & IH3 & IH4)]; cbn.
+  - repeat split; auto.
+  - destruct Hsb as (P1 & P2 & P3 & P4 & P5 & P6 & P7 & P8).
+    assert (2 <= 2) as H22 by lia. assert (2 < 3) as H23 by lia.
+    specialize (P6 H22). specialize (P7 H23). destruct P6 as [Pd Pb]. clear P5 P8 H22 H23.
+    unfold barw at 1. rewrite P7. cbn. split; [auto|]. split; [|split].
+    + constructor; auto. unfold hbar. destruct (registered sb) eqn:Hr.
+      * unfold sub_inv; cbn; intuition (try congruence; try lia).
+      * unfold sub_inv; cbn; intuition (try congruence; try lia).
+    + unfold hbar at 1. destruct (registered sb) eqn:Hr; cbn.
+      * unfold barw at 1; cbn. rewrite IH3. reflexivity.
+      * unfold barw at 1. rewrite P7. cbn. auto.
+    + destruct (registered sb) eqn:Hr; cbn; intros H0; try discriminate.
+      constructor; auto. unfold sub_inv; cbn; intuition (try congruence; try lia).
+Qed.
+
+Lemma forallb_Forall {A} (p : A -> bool) l : forallb p l = true -> Forall (fun x => p x = true) l.
+Proof. induction l; cbn; intros H; constructor; apply andb_true_iff in H as [H1 H2]; auto. Qed.
+
+Lemma Forall_and {A} (P Q : A -> Prop) l : Forall P l -> Forall Q l -> Forall (fun x => P x /\ Q x) l.
+Proof. induction 1; intros HQ; inversion HQ; subst; constructor; auto. Qed.
+
+Ltac fwd := repeat match goal with
+  | H : ?P -> _ |- _ =>
+    match type of P with Prop => let HP := fresh in assert (HP : P) by lia; specialize (H HP); clear HP end
+  end.
+Ltac chg I2 :=
+  eapply Forall_impl; [|exact I2]; intros sb Hsb; cbn in Hsb; unfold sub_inv in Hsb;
+  decompose [and] Hsb; clear Hsb; fwd; unfold sub_inv; splits; auto; try (intros; lia);
+  try (intros; intuition congruence).
+
+Ltac common I2 :=
+  dmatch; inv_some; idxh; boolh; unfold Inv; cbn; splits; auto; rewrite ?length_upd; auto;
+  try getsub I2;
+  try (apply Forall_upd; auto; subinv; fail);
+  try (erewrite barw_upd_same; eauto; fail).
+
+Lemma Inv_step n w q s e s' : Inv n w q s -> step s e = Some s' -> Inv n w q s'.
+Proof.
+  intros (I1 & I2 & I3 & I4 & I5 & I6 & I7 & I8 & I9 & I10 & I11 & I12 & L1 & L2 & L3) Hs.
+  unfold step in Hs. rewrite I11 in Hs.
+  destruct e.
+  - (* publish *) common I2.
+  - (* arrive *) unfold step_arrive in Hs. common I2.
+  - (* pop *) unfold step_pop in Hs. common I2.
+    all: try (exfalso; subinv; fail).
+    all: try (intros; exfalso; subinv; fail).
+    all: try (erewrite barw_upd_clear; eauto; congruence).
+    + split; intros; auto. apply Nat.eqb_eq; auto.
+    + intros Hr. split; intros Hf.
+      * apply I5 in Hf; auto. rewrite Hf. reflexivity.
+      * apply Nat.eqb_neq in Heqb0. contradiction.
+  - (* drop *) unfold step_drop in Hs. common I2.
+  - (* enq *) unfold step_enq in Hs. common I2.
+    all: try (rw_goal; auto; fail).
+    + (* send on closed channel: impossible *)
+      exfalso. assert (6 <= srank (serve s)) as Hr by (apply I7; auto).
+      assert (refs s = 0) as Hz by (apply I5; [lia|apply I6; lia]).
+      rewrite I3 in Hz. pose proof (wsum_zero_nth _ _ _ _ Hz Heqo) as Hb. unfold barw in Hb.
+      destruct (bar s0) eqn:Hbar; try discriminate.
+      unfold sub_inv in Hsb. destruct Hsb as (_ & _ & _ & _ & _ & _ & _ & Hq).
+      destruct Hq as [_ Hq]; auto; try lia. congruence.
+    + intros He. rewrite existsb_Forall_false in He; auto. discriminate.
+    + intros Hc. apply Forall_upd; auto.
+    + intros He. apply existsb_upd in He; auto.
+    + intros Hr. specialize (I10 Hr). pose proof (forallb_nth_error _ _ _ _ I10 Ha). destruct a; discriminate.
+  - (* take *) unfold step_take in Hs. common I2.
+    + intros Hc. apply Forall_upd; auto.
+    + intros He. apply existsb_upd in He; auto. apply I9 in He. congruence.
+    + intros Hr. specialize (I10 Hr). pose proof (forallb_nth_error _ _ _ _ I10 Heqo). discriminate.
+  - (* start *) unfold step_start in Hs. common I2.
+    + intros Hc. apply Forall_upd; auto.
+    + intros He. apply existsb_upd in He; auto.
+    + intros Hr. specialize (I10 Hr). pose proof (forallb_nth_error _ _ _ _ I10 Heqo). discriminate.
+  - (* done *) unfold step_done in Hs. common I2.
+    + intros Hc. apply Forall_upd; auto.
+    + intros He. apply existsb_upd in He; auto.
+    + intros Hr. specialize (I10 Hr). pose proof (forallb_nth_error _ _ _ _ I10 Heqo). discriminate.
+  - (* exit *) unfold step_exit in Hs. common I2.
+    all: try (rw_goal; auto; fail).
+    + intros Hc. congruence.
+    + intros Hr. specialize (I10 Hr). pose proof (forallb_nth_error _ _ _ _ I10 Heqo). discriminate.
+  - (* stopcall *) common I2. destruct (serve s); cbn in *; intuition congruence.
+  - (* recvquit *) common I2; try lia; try (intros; lia); try (split; intros; [congruence|lia]).
+    + chg I2.
+    + split; intros Hx; [apply I7 in Hx; cbn in Hx; lia|lia].
+  - (* stopclose *) common I2. destruct (serve s); cbn in *; intuition congruence.
+  - (* drainsub *) unfold step_drainsub in Hs. common I2.
+    all: try (rw_goal; cbn; auto; fail).
+    all: try (rewrite Heqs0 in *; cbn in *; auto; fail).
+    rewrite Heqs0 in *. cbn in *. apply Forall_upd; auto.
+    unfold sub_inv in Hsb; decompose [and] Hsb; clear Hsb; fwd; unfold sub_inv; cbn; splits; auto; try (intros; lia);
+    try (intros; intuition congruence).
+  - (* brokerunsub *) unfold step_brokerunsub in Hs. common I2.
+  - (* checkdrained *) unfold step_checkdrained in Hs. common I2.
+    apply Forall_upd; auto. apply Nat.eqb_eq in H0. unfold pmsgs in H0.
+    assert (pre s0 = []) by (destruct (pre s0); cbn in H0; auto; lia).
+    assert (inh s0 = None) by (destruct (inh s0); auto; lia).
+    subinv.
+  - (* flush *) common I2; try lia; try (intros; lia); try (split; intros; [congruence|lia]).
+    + pose proof (Forall_and _ _ _ I2 (forallb_Forall _ _ Heqb)) as HF.
+      eapply Forall_impl; [|exact HF]. intros sb [Hsb Hu]. cbn in Hsb. boolh.
+      unfold sub_inv in Hsb; decompose [and] Hsb; clear Hsb; fwd; unfold sub_inv; splits; auto; try (intros; lia);
+      try (intros; intuition congruence).
+    + split; intros Hx; [apply I7 in Hx; cbn in Hx; lia|lia].
+  - (* barrier *) unfold step_barrier in Hs. destruct (serve s) eqn:Heqs0; try discriminate. cbn in I2.
+    destruct (bar_lemmas _ I2) as (B1 & B2 & B3 & B4). fold hbar in Hs.
+    common I2; try lia; try (intros; lia); try (rewrite map_length; auto).
+    all: try (split; intros Hx; [apply I7 in Hx; cbn in Hx; lia|lia]).
+    all: try (exact B2); try (exact B3); try (apply B4; apply Nat.eqb_eq; auto; fail).
+    all: try (intros _; split; auto; fail).
+    all: intros _; rewrite I4 by (cbn; lia); apply Nat.eqb_neq in Heqb; split; intros; try discriminate; contradiction.
+  - (* barrierwait *) common I2; try lia; try (intros; lia).
+    + chg I2.
+    + intros _. try rewrite Heqb. apply I5. cbn; lia.
+    + split; intros Hx; [apply I7 in Hx; cbn in Hx; lia|lia].
+  - (* senddone *) common I2; try lia; try (intros; lia).
+    + chg I2.
+    + intros _. try rewrite Heqb. apply I5. cbn; lia.
+    + split; intros Hx; [apply I7 in Hx; cbn in Hx; lia|lia].
+  - (* close *) common I2; try lia; try (intros; lia); try (intros; discriminate).
+    + chg I2.
+    + intros _. try rewrite Heqb. apply I5. cbn; lia.
+    + intros _. try rewrite Heqb. apply I6. cbn; lia.
+  - (* wait *) common I2; try lia; try (intros; lia).
+    + chg I2.
+    + intros _. try rewrite Heqb. apply I5. cbn; lia.
+    + intros _. try rewrite Heqb. apply I6. cbn; lia.
+    + split; intros; [lia|apply I7; cbn; lia].
+Qed.
